@@ -13,15 +13,22 @@ import (
 func init() { register("C12", "exploration", runC12) }
 
 func runC12(r *engine.Run) {
-	r.Rule = "E1 over a finite space, enumerated completely in both tiers: 24 band names (14 + 10 deprecated aliases) x repeater x dwell-time; per configuration every uplink channel index (and -1, n, n+1), every (uplink DR, RX1 offset) in [-2..16] x [-2..9], and DevAddr(16) x beaconTime(6) for the ping-slot rule; for bands with dynamic channels the channel part is repeated after adding custom channels and disabling one. Oracle: the snapshot hook gives exact definedness and direction flags of data-rates; the region's rules (RX1 channel rule, RX1 data-rate formula, fixed ping-slot frequency or hopping rule) come from mc/spec/region.go. Non-trivial: a call that returned a value which was compared with the region's rule; distinct by construction."
+	r.Rule = "E1 over a finite space, enumerated completely in both tiers: 24 band names (14 + 10 deprecated aliases) x repeater x dwell-time; per configuration every uplink channel index (and -1, n, n+1), every (uplink DR, RX1 offset) in [-2..16] x [-2..9], and DevAddr(16) x beaconTime(36: period boundaries -1 ns / 0 / +1 ns at beacon periods of every magnitude) for the ping-slot rule; for bands with dynamic channels the channel part is repeated after adding custom channels and disabling one. Oracle: the snapshot hook gives exact definedness and direction flags of data-rates; the region's rules (RX1 channel rule, RX1 data-rate formula, fixed ping-slot frequency or hopping rule) come from mc/spec/region.go. Non-trivial: a call that returned a value which was compared with the region's rule; distinct by construction."
 	bandConstructionStability(r)
 	bandGetterHistory(r)
-	r.Assume("DevAddr and beacon time use 16 x 6 value alphabets (all residues mod 8 of both, the 128 s period boundary, 2^31 s); everything else is finite and enumerated completely")
+	r.Assume("DevAddr and beacon time use 16 x 36 value alphabets (all residues mod 8 of both, the 128 s period boundary one nanosecond before / at / after it for ten period numbers from 2^10 to 7.2e7, 2^31 s); everything else is finite and enumerated completely")
 	r.Assume("where the Regional Parameters define no closed formula (LR-FHSS rows, KR920/IN865 offsets 6-7) only the structural rules are judged: result defined for downlink, monotone over the positive offsets, at most one defined downlink data-rate per step")
 
 	cfgs := allBandCfgs(true)
 	devAddrs := []uint32{0, 1, 2, 3, 4, 5, 6, 7, 8, 0x0F, 0xFFFFFFFF, 0xFFFFFFF8, 0x01020304, 0x7FFFFFFF, 0x80000000, 0xAAAAAAAA}
 	beacons := []time.Duration{0, 128*time.Second - 1, 128 * time.Second, 7 * 128 * time.Second, 8 * 128 * time.Second, (1 << 31) * time.Second}
+	// the 128 s period boundary one nanosecond before / at / after it, at beacon periods of every
+	// magnitude (2^k and 10^k periods, today's GPS time, the end of the Duration range)
+	for _, k := range []int64{1 << 10, 1 << 17, 1<<17 + 1, 1 << 20, 1 << 24, 1<<24 + 5, 10000000, 10937500, 1 << 26, 72057594} {
+		for _, off := range []time.Duration{-1, 0, 1} {
+			beacons = append(beacons, time.Duration(k)*128*time.Second+off)
+		}
+	}
 
 	r.PartDims("rx1-datarate", []string{fmt.Sprintf("config:%d", len(cfgs)), "uplinkDR:-2..16", "offset:-2..9"}, uint64(len(cfgs)), func(c *engine.Case) {
 		cfg := cfgs[c.Index]
